@@ -1,8 +1,28 @@
-import Oracle.Util
-/-! Oracle handlers for C05 (model functions exposed on the line protocol). -/
+import Oracle.AccessUtil
+/-! Oracle handlers for C05: the governing-privilege table and the handlers' decision model. -/
 namespace Oracle
-open Mobius
+open Mobius Mobius.Spec Mobius.Authz
 
-def c05Handlers : List (String × Handler) := []
+def c05Handlers : List (String × Handler) := [
+  -- authz <requester bitmap hex> <request class tokens…>  →  verdict | effects | out
+  ("authz", fun (a : List String) => match a with
+    | b :: req => match reqOf req with
+      | some r => resultStr (run (bitmapOf b) r)
+      | none => "bad-op"
+    | _ => "bad-op"),
+  -- governing <request class tokens…>  →  the protocol's governing privilege numbers for this class
+  ("governing", fun (a : List String) => match reqOf a with
+    | some r => natsStr (governing r)
+    | none => "bad-op"),
+  ("requested", fun (a : List String) => match reqOf a with
+    | some r => effectsStr (requested r)
+    | none => "bad-op"),
+  ("tranname", fun (a : List String) => match reqOf a with
+    | some r => r.tranName
+    | none => "bad-op"),
+  ("isset", fun (a : List String) => match a with
+    | [b, i] => toString ((bitmapOf b).isSet (num i))
+    | _ => "bad-op")
+]
 
 end Oracle
